@@ -171,7 +171,7 @@ impl<T: TrustProvider> TrustAwarePeerSelector<T> {
         }
 
         // Score each candidate, filtering NaN during collection for efficiency
-        let mut scored: Vec<(NodeInfo, f64)> = candidates
+        let mut scored: Vec<(NodeInfo, f64, [u8; 32])> = candidates
             .iter()
             .filter_map(|node| {
                 let trust = self.get_trust_for_node(&node.id);
@@ -181,23 +181,34 @@ impl<T: TrustProvider> TrustAwarePeerSelector<T> {
                     return None;
                 }
 
+                // A trust source may hand out values outside [0, 1]; a negative
+                // trust factor would invert the distance ordering.
+                let trust = if trust.is_nan() {
+                    trust
+                } else {
+                    trust.clamp(0.0, 1.0)
+                };
+
                 let score = self.compute_score(key, node, trust, config);
                 // Filter NaN during collection rather than after
                 if score.is_nan() {
                     return None;
                 }
-                Some((node.clone(), score))
+                let exact_distance = key.distance(&DhtKey::from_bytes(*node.id.as_bytes()));
+                Some((node.clone(), score, exact_distance))
             })
             .collect();
 
-        // Sort by score descending (higher is better)
-        scored.sort_by(|a, b| b.1.total_cmp(&a.1));
+        // Sort by score descending (higher is better). The score only sees the
+        // top 16 bytes of the distance, through an f64: equal scores are ordered
+        // by the exact 256-bit XOR distance, closer first.
+        scored.sort_by(|a, b| b.1.total_cmp(&a.1).then_with(|| a.2.cmp(&b.2)));
 
         // Take top `count` peers
         scored
             .into_iter()
             .take(count)
-            .map(|(node, _)| node)
+            .map(|(node, _, _)| node)
             .collect()
     }
 
